@@ -1,0 +1,7 @@
+//go:build !verif
+
+package build
+
+import "github.com/thought-machine/please/src/core"
+
+func verifDepStates(target *core.BuildTarget) string { return "" }
